@@ -361,6 +361,19 @@ def gen_op(rng: random.Random, case: F.Case, tracks, kinds: list[str], always_re
         t = rng.randrange(T)
         frame = case.frame
         seg = tracks.segmentation.reshape(-1)
+        if rng.random() < 0.07 and not case.spec.get("orphan_labels"):
+            # a stroke with a NEW label that wipes out BOTH daughters of a division (same frame) and
+            # asks for the mother's track: refused without force (the mother has divided) after two
+            # dependent deletions were applied — the rollback has to undo them in the right order
+            divs = [(p_, list(g.successors(p_))) for p_ in nodes if g.out_degree(p_) == 2]
+            divs = [(p_, cs) for p_, cs in divs if g.nodes[cs[0]]["time"] == g.nodes[cs[1]]["time"]]
+            if divs:
+                p_, cs = rng.choice(divs)
+                tt = g.nodes[cs[0]]["time"]
+                px = sorted(tt * frame + o for o in range(frame) if int(seg[tt * frame + o]) in cs)
+                if px:
+                    return {"op": "paint", "value": fresh_node_id(rng, tracks), "pixels": px,
+                            "tid": g.nodes[p_].get("track_id", 1), "force": int(rng.random() < 0.3)}
         here = [n for n in nodes if g.nodes[n]["time"] == t]
         k = rng.randint(1, 5)
         offs: list[int] = []
